@@ -17,9 +17,12 @@
                                       (hypothesis of C20's no-out-of-bounds theorem)
      c18_filter_recursion_covered     ValidateSchema checks every position the evaluator reaches
      c18_limits                       accepted requests satisfy every documented bound
-     c18_undocumented_gap_*           ... except three documented bounds that Validate() does not enforce
+     c18_undocumented_gap_index_schema_required   ... except one documented bound that Validate() does not enforce
+     c18_accepted_index_buildable     an accepted vector index never has a product quantizer that cannot be built
+     c18_former_gaps_*                the gaps of the pinned tree (NaN alpha, triggerThreshold, unbuildable product
+                                      quantizer): closed by fix commits, the pinned checks (_v0) accepted the witnesses
      c18_invalid_no_effect            a rejected request performs no cluster call
-     c18_v1_*                         v1 handlers: safe on v1 collections, nil dereference otherwise *)
+     c18_v1_*                         v1 handlers never panic; the pinned ones (_v0) dereferenced nil on v2 collections *)
 From Coq Require Import List ZArith NArith Bool String QArith.
 From Semadb Require Import DocLimits Dyadic Model_C18 Proofs_C18.
 Import ListNotations.
@@ -77,8 +80,8 @@ Proof. intros schema q. split; [exact (reach_covered schema q) | exact (vs_sound
 Print Assumptions c18_filter_recursion_covered.
 
 (* --- documented limits.  A request accepted by the hand-written validation satisfies every bound
-       documented by the binding tags (the published JSON schema): collection creation when it avoids
-       the three gaps below, search requests, point batches, both API versions.  Proved from the side
+       documented by the binding tags (the published JSON schema): collection creation when the
+       indexSchema is present (the one remaining gap below), search requests, point batches, both API versions.  Proved from the side
        conditions "enf_* within doc_*" that Coq evaluates on the regenerated constants. --- *)
 Theorem c18_limits :
   (forall r, validate_create2 r = true -> nogap_create2 r = true -> doc_create2 r = 0%N) /\
@@ -105,38 +108,41 @@ Proof.
 Qed.
 Print Assumptions c18_limits.
 
-(* --- documented limits that Validate() does NOT enforce: accepted requests that violate them.
-       21: alpha = NaN passes `p.Alpha < 1.1 || p.Alpha > 1.5` (MessagePack can carry NaN);
-       22: the binary quantizer's triggerThreshold is only tested when no threshold is given;
-       23: indexSchema is documented as required, a request without it is accepted. --- *)
-Theorem c18_undocumented_gap_alpha_nan :
-  validate_create2 (mkC2 3 [97; 98; 99]%N true (gap_schema f32_nan None)) = true /\
-  doc_create2 (mkC2 3 [97; 98; 99]%N true (gap_schema f32_nan None)) = 21%N.
-Proof. exact gap_alpha_nan. Qed.
-Print Assumptions c18_undocumented_gap_alpha_nan.
-
-Theorem c18_undocumented_gap_bq_trigger :
-  let q := Some (mkQz "binary" (Some (mkBQ true (-5) "hamming")) None) in
-  validate_create2 (mkC2 3 [97; 98; 99]%N true (gap_schema f32_1_2 q)) = true /\
-  doc_create2 (mkC2 3 [97; 98; 99]%N true (gap_schema f32_1_2 q)) = 22%N.
-Proof. exact gap_bq_trigger. Qed.
-Print Assumptions c18_undocumented_gap_bq_trigger.
-
+(* --- the one documented limit that Validate() does NOT enforce: indexSchema is tagged required, a
+       request without it is accepted (code 23 of doc_create2).  The published OpenAPI file does not
+       list it as required, so this is left as a documentation discrepancy. --- *)
 Theorem c18_undocumented_gap_index_schema_required :
   validate_create2 (mkC2 3 [97; 98; 99]%N false []) = true /\
   doc_create2 (mkC2 3 [97; 98; 99]%N false []) = 23%N.
 Proof. exact gap_schema_required. Qed.
 Print Assumptions c18_undocumented_gap_index_schema_required.
 
-(* neither documented nor enforced: numSubVectors of a product quantizer need not divide the vector
-   size; the collection is created and every later use of that index fails (finding, see Run_C18) *)
-Theorem c18_undocumented_gap_pq_divisibility :
-  let q := Some (mkQz "product" None (Some (mkPQ 4 2 1000))) in
-  let s := [("v"%string, mkIV "vectorFlat" (Some (mkVP 5 "euclidean" 0 0 0%N q)) None None false false)] in
-  enf_pq_subvectors_divide_size = false /\
-  validate_create2 (mkC2 3 [97; 98; 99]%N true s) = true /\ doc_create2 (mkC2 3 [97; 98; 99]%N true s) = 0%N.
-Proof. exact gap_pq_divisibility. Qed.
-Print Assumptions c18_undocumented_gap_pq_divisibility.
+(* --- an accepted vector index can always be built: a product quantizer is only accepted with a metric
+       it serves and a numSubVectors that divides the vector size (Quantizer.ValidateFor), so no later
+       insert or search fails in vectorstore.New --- *)
+Theorem c18_accepted_index_buildable :
+  (forall p, validate_flat p = true -> pq_unbuildable p = false) /\
+  (forall p, validate_vamana p = true -> pq_unbuildable p = false).
+Proof. exact accepted_index_buildable. Qed.
+Print Assumptions c18_accepted_index_buildable.
+
+(* --- the former gaps: alpha = NaN, a binary-quantizer triggerThreshold outside 0..50000 next to a
+       threshold, a product quantizer with 2 sub-vectors on a 5-dimensional index.  All three creation
+       requests are refused now; the checks of the pinned tree accepted them --- *)
+Theorem c18_former_gaps_closed :
+  validate_create2 (mkC2 3 [97; 98; 99]%N true (gap_schema f32_nan None)) = false /\
+  validate_create2 (mkC2 3 [97; 98; 99]%N true (gap_schema f32_1_2 (Some (mkQz "binary" (Some (mkBQ true (-5) "hamming")) None)))) = false /\
+  validate_create2 (mkC2 3 [97; 98; 99]%N true gap_schema_pq) = false.
+Proof. exact former_gaps_rejected. Qed.
+Print Assumptions c18_former_gaps_closed.
+
+Theorem c18_former_gaps_refuted_v0 :
+  alpha_ok_gen false f32_nan = true /\ f32_in_Q doc_alpha_min doc_alpha_max f32_nan = false /\
+  validate_bq_gen true (mkBQ true (-5) "hamming") = true /\ doc_bq (mkBQ true (-5) "hamming") = 22%N /\
+  pq_unbuildable (mkVP 5 "euclidean" 0 0 0%N (Some (mkQz "product" None (Some (mkPQ 4 2 1000))))) = true /\
+  validate_oquant (Some (mkQz "product" None (Some (mkPQ 4 2 1000)))) = true.
+Proof. exact former_gaps_v0. Qed.
+Print Assumptions c18_former_gaps_refuted_v0.
 
 (* --- a rejected request performs no cluster call: every handler returns before its first
        clusterNode.* call when validation fails (side condition: the generator found the
@@ -154,10 +160,15 @@ Theorem c18_invalid_no_effect :
   (forall s r, validate_search1 r = false -> handler_search1 s r = Reject) /\
   (forall s r d, v1_dim s = Some d -> points1_fit d r = false ->
                  handler_insert1 s r = Reject /\ handler_update1 s r = Reject) /\
-  (forall s r d, v1_dim s = Some d -> s1_len r <> d -> handler_search1 s r = Reject).
+  (forall s r d, v1_dim s = Some d -> s1_len r <> d -> handler_search1 s r = Reject) /\
+  (* v1 request on a collection without a vamana index named "vector" *)
+  (forall s, v1_dim s = None ->
+     handler_get1 s = Reject /\ (forall r, handler_insert1 s r = Reject) /\
+     (forall r, handler_update1 s r = Reject) /\ (forall r, handler_search1 s r = Reject)).
 Proof.
   destruct invalid_no_effect_v2 as [A [B [C [D E]]]]. destruct invalid_no_effect_v1 as [F [G [H [I [J [K L]]]]]].
-  repeat split; try assumption; intros; [apply (K s r d) | apply (K s r d)]; assumption.
+  repeat split; try assumption; intros;
+    first [ apply (K s r d); assumption | apply (v1_missing_index_rejected s); assumption ].
 Qed.
 Print Assumptions c18_invalid_no_effect.
 
@@ -169,25 +180,25 @@ Theorem c18_valid_reaches_cluster :
 Proof. exact valid_reaches_cluster. Qed.
 Print Assumptions c18_valid_reaches_cluster.
 
-(* --- v1 handlers read IndexSchema["vector"].VectorVamana.VectorSize without a nil test.
-       On collections that have that index (every collection created through v1) no handler panics;
-       on any other collection (created through v2) they dereference nil: the statement "no request
-       makes a handler panic" is refuted by the model, witness replayed on the implementation --- *)
-Theorem c18_v1_no_panic : forall s d, v1_dim s = Some d ->
-  handler_get1 s <> Panic /\ (forall r, handler_insert1 s r <> Panic) /\
+(* --- v1 handlers fetch IndexSchema["vector"].VectorVamana through a helper and test it for nil: on no
+       collection does a v1 handler panic.  The pinned handlers dereferenced it directly: on a collection
+       created through v2 they panicked (witness kept for the unguarded handlers, _v0) --- *)
+Theorem c18_v1_no_panic : forall s,
+  handler_get1 s <> Panic /\ handler_list1 [s] <> Panic /\ (forall r, handler_insert1 s r <> Panic) /\
   (forall r, handler_update1 s r <> Panic) /\ (forall r, handler_search1 s r <> Panic).
 Proof. exact v1_no_panic. Qed.
 Print Assumptions c18_v1_no_panic.
 
-Theorem c18_v1_nil_deref_refuted :
+Theorem c18_v1_nil_deref_refuted_v0 :
   validate_ischema flat_only_schema = true /\
-  handler_get1 flat_only_schema = Panic /\
-  handler_list1 [flat_only_schema] = Panic /\
-  validate_search1 (mkSr1 2 10) = true /\ handler_search1 flat_only_schema (mkSr1 2 10) = Panic /\
+  handler_get1_gen true flat_only_schema = Panic /\
+  handler_list1_gen true [flat_only_schema] = Panic /\
+  validate_search1 (mkSr1 2 10) = true /\ handler_search1_gen true flat_only_schema (mkSr1 2 10) = Panic /\
   validate_insert1 (mkPts1 [mkPt1 IdAbsent 2 20] 1000) = true /\
-  handler_insert1 flat_only_schema (mkPts1 [mkPt1 IdAbsent 2 20] 1000) = Panic.
-Proof. exact v1_nil_deref_refuted. Qed.
-Print Assumptions c18_v1_nil_deref_refuted.
+  handler_points1_gen true hdl_v1_insert_validates_first (validate_insert1 (mkPts1 [mkPt1 IdAbsent 2 20] 1000))
+                      flat_only_schema (mkPts1 [mkPt1 IdAbsent 2 20] 1000) (OpInsert 1) = Panic.
+Proof. exact v1_nil_deref_refuted_v0. Qed.
+Print Assumptions c18_v1_nil_deref_refuted_v0.
 
 (* ------------------------------------------------------------------ *)
 (* Examples: the hypotheses are satisfiable by non-trivial data         *)
